@@ -24,6 +24,7 @@ type AggObl struct {
 	Solver  string   `json:"solver"`
 	Ms      int64    `json:"ms"`
 	Detail  string   `json:"detail,omitempty"`
+	Dep     bool     `json:"dependency,omitempty"` // obligation of a contract the property's proofs rely on (thorough tier)
 	failing *Obligation
 	failVC  *VC
 }
@@ -141,6 +142,7 @@ type CheckRun struct {
 	Only           string
 	T0             time.Time
 	UpdateBaseline bool
+	depSet         map[string]bool
 }
 
 // propFuncs selects the functions whose contracts carry a clause labelled for the property.
@@ -236,6 +238,19 @@ func (r *CheckRun) Run() (code int) {
 		}
 	}
 	P.computeModsets()
+	// thorough tier: also verify, in full, every contract the selected units rely on at their call sites
+	// (transitively, through uncontracted callees that are inlined), so that the property's check is self-contained
+	depSet := map[string]bool{}
+	fullUnit := map[string]bool{} // selected units that other units call: their whole contract is verified, too
+	if r.Tier == "thorough" && r.Only == "" {
+		deps, full := r.depClosure(keys)
+		for _, d := range deps {
+			depSet[d] = true
+			keys = append(keys, d)
+		}
+		fullUnit = full
+	}
+	r.depSet = depSet
 	quickMs, slowMs := 4000, 30000
 	if r.Tier == "thorough" {
 		quickMs, slowMs = 10000, 120000
@@ -275,19 +290,23 @@ func (r *CheckRun) Run() (code int) {
 				results[i] = fres{vc: vc, obls: vc.obls, err: err}
 				return
 			}
-			vc := NewVCFor(P, P.Spec.Contracts[k], r.Prop)
+			unitProp := r.Prop
+			if depSet[k] || fullUnit[k] {
+				unitProp = "" // a dependency is verified against its whole contract, whatever the labels
+			}
+			vc := NewVCFor(P, P.Spec.Contracts[k], unitProp)
 			vc.workDir = r.Work
-			vc.crossCheck = r.Tier == "thorough"
+			vc.crossCheck = r.Tier == "thorough" && !depSet[k]
 			vc.knownOpen = map[string]bool{}
 			for _, kf := range knownAll {
-				if kf.Status == "open" && kf.Property == r.Prop && kf.Func == vc.key {
+				if kf.Status == "open" && (kf.Property == r.Prop || depSet[k] || fullUnit[k]) && kf.Func == vc.key {
 					vc.knownOpen[kf.Obligation] = true
 				}
 			}
 			if c := vc.contract; c != nil {
 				vc.safetyProp = false
 				for _, sp := range c.SafetyProps {
-					if sp == r.Prop {
+					if sp == r.Prop && !depSet[k] {
 						vc.safetyProp = true
 					}
 				}
@@ -350,7 +369,7 @@ func (r *CheckRun) Run() (code int) {
 			// is gone, a loop it annotates is gone) fails the obligations that were proved for that function
 			if results[i].genFailed && results[i].vc != nil {
 				proved := false
-				for _, n := range baseline0[r.Prop] {
+				for _, n := range append(append([]string{}, baseline0[r.Prop]...), baseline0[r.Prop+"/deps"]...) {
 					if strings.HasPrefix(n, results[i].vc.key+" ") {
 						proved = true
 					}
@@ -396,7 +415,7 @@ func (r *CheckRun) Run() (code int) {
 			}
 			a, ok := byName[o.Name]
 			if !ok {
-				a = &AggObl{Func: vc.key, Name: o.Name, Status: "discharged"}
+				a = &AggObl{Func: vc.key, Name: o.Name, Status: "discharged", Dep: depSet[vc.key] || (fullUnit[vc.key] && o.Clause != nil && !o.Clause.HasProp(r.Prop))}
 				byName[o.Name] = a
 				order = append(order, o.Name)
 			}
@@ -447,6 +466,80 @@ func (r *CheckRun) Run() (code int) {
 			Assumed: sortedKeys(vc.assumedUsed), DefaultExt: sortedKeys(vc.defaultExt), SolverMs: solverMs})
 	}
 	return r.report(aggs, freports, vacuity)
+}
+
+// depClosure: the contracts (non-assumed, with a body) reachable from the selected units through static calls,
+// looking through uncontracted in-module callees (they are inlined into their callers); selected units excluded.
+func (r *CheckRun) depClosure(keys []string) ([]string, map[string]bool) {
+	P := r.P
+	selected := map[string]bool{}
+	var work []*ssa.Function
+	for _, k := range keys {
+		selected[k] = true
+		if c := P.Spec.Contracts[k]; c != nil {
+			if fn := P.Funcs[c.Target]; fn != nil {
+				work = append(work, fn)
+			}
+		}
+	}
+	seenFn := map[*ssa.Function]bool{}
+	deps := map[string]bool{}
+	full := map[string]bool{}
+	for len(work) > 0 {
+		fn := work[len(work)-1]
+		work = work[:len(work)-1]
+		if seenFn[fn] || len(fn.Blocks) == 0 {
+			continue
+		}
+		seenFn[fn] = true
+		work = append(work, fn.AnonFuncs...)
+		for _, b := range fn.Blocks {
+			for _, ins := range b.Instrs {
+				ci, ok := ins.(ssa.CallInstruction)
+				if !ok {
+					continue
+				}
+				callee := ci.Common().StaticCallee()
+				if callee == nil || callee.Pkg == nil || !inModule(callee.Pkg.Pkg) || len(callee.Blocks) == 0 {
+					continue
+				}
+				k := funcKey(callee)
+				c := P.Spec.Contracts[k]
+				behs := P.Spec.Behaviors[k]
+				if c == nil && len(behs) == 0 {
+					work = append(work, callee) // inlined: its callees are the caller's
+					continue
+				}
+				if c != nil && c.Assumed {
+					continue
+				}
+				if c != nil {
+					if selected[k] {
+						full[k] = true
+					} else {
+						deps[k] = true
+					}
+				}
+				for _, bc := range behs {
+					if bc.Assumed {
+						continue
+					}
+					if selected[bc.Key] {
+						full[bc.Key] = true
+					} else {
+						deps[bc.Key] = true
+					}
+				}
+				work = append(work, callee)
+			}
+		}
+	}
+	var out []string
+	for k := range deps {
+		out = append(out, k)
+	}
+	sort.Strings(out)
+	return out, full
 }
 
 func contains(xs []string, x string) bool {
@@ -511,6 +604,11 @@ func (r *CheckRun) report(aggs []*AggObl, freports []FuncReport, vacuity []strin
 	for _, n := range baseline[r.Prop] {
 		inBase[n] = true
 	}
+	if r.Tier == "thorough" {
+		for _, n := range baseline[r.Prop+"/deps"] {
+			inBase[n] = true
+		}
+	}
 	exit := 0
 	var lines []string
 	total, discharged := 0, 0
@@ -532,6 +630,19 @@ func (r *CheckRun) report(aggs []*AggObl, freports []FuncReport, vacuity []strin
 			continue
 		}
 		// failing obligation
+		if a.Dep {
+			// an open finding of another property inside a dependency is reported by that property's own check
+			skip := false
+			for i := range known {
+				if known[i].Status == "open" && known[i].Func == a.Func && known[i].Obligation == a.Name {
+					skip = true
+				}
+			}
+			if skip {
+				total--
+				continue
+			}
+		}
 		kf := findKnown(known, r.Prop, a.Func, a.Name)
 		if kf != nil && kf.Status == "open" {
 			lines = append(lines, fmt.Sprintf("KNOWN-FINDING: property=%s %s %s: %s", r.Prop, shortKey(a.Func), a.Name, kf.What))
@@ -568,7 +679,17 @@ func (r *CheckRun) report(aggs []*AggObl, freports []FuncReport, vacuity []strin
 					funcProved = true
 				}
 			}
-			if inBase[id] || len(baseline[r.Prop]) == 0 || confirmed || ((a.Name == "safety" || a.Name == "frame") && funcProved) {
+			// an instance of a package-wide judgement clause (orderfree, secretflow, nocall: "[label:instance]") whose other
+			// instances are in the baseline is new code that the clause quantifies over: the clause fails
+			clauseProved := false
+			if i := strings.Index(a.Name, ":"); strings.HasPrefix(a.Name, "[") && i > 0 && a.failing != nil && a.failing.Kind == "ground" {
+				for n := range inBase {
+					if strings.HasPrefix(n, a.Func+" "+a.Name[:i+1]) {
+						clauseProved = true
+					}
+				}
+			}
+			if inBase[id] || len(baseline[r.Prop]) == 0 || confirmed || ((a.Name == "safety" || a.Name == "frame") && funcProved) || clauseProved {
 				lines = append(lines, fmt.Sprintf("VIOLATION property=%s replay=%s%s", r.Prop, replay, suffix))
 				violations++
 				exit = 1
@@ -580,7 +701,7 @@ func (r *CheckRun) report(aggs []*AggObl, freports []FuncReport, vacuity []strin
 			}
 		} else {
 			confirmed := false
-			if a.failing != nil && a.failing.Kind == "safety" {
+			if a.failing != nil && (a.failing.Kind == "safety" || (a.failing.Clause != nil && a.failing.Clause.Kind == "erroronly")) {
 				confirmed = r.tryReplay(a, replay)
 			}
 			if inBase[id] || confirmed {
@@ -647,13 +768,21 @@ func (r *CheckRun) report(aggs []*AggObl, freports []FuncReport, vacuity []strin
 		fmt.Println(l)
 	}
 	if r.UpdateBaseline && r.Only == "" {
-		var names []string
+		var names, depNames []string
 		for _, a := range aggs {
 			if a.Status == "discharged" {
-				names = append(names, a.Func+" "+a.Name)
+				if a.Dep {
+					depNames = append(depNames, a.Func+" "+a.Name)
+				} else {
+					names = append(names, a.Func+" "+a.Name)
+				}
 			}
 		}
 		sort.Strings(names)
+		sort.Strings(depNames)
+		if r.Tier == "thorough" {
+			baseline[r.Prop+"/deps"] = depNames
+		}
 		baseline[r.Prop] = names
 		b, _ := json.MarshalIndent(baseline, "", " ")
 		os.MkdirAll(filepath.Join(r.Verif, "baseline"), 0o755)
